@@ -1,4 +1,5 @@
 import PprofVerif.Lemmas.DotEscape
+import PprofVerif.Lemmas.DotEmit
 import PprofVerif.Lemmas.CallgrindComp
 import PprofVerif.Gen.DotSites
 import PprofVerif.Gen.HtmlSinks
@@ -60,6 +61,53 @@ example : qsafeB (escape [DQ] ++ [BS, 0x6e] ++ escape [BS]) = true := by decide
 /-- Escaping is faithful: Graphviz's reading of the escaped text (`\\`→`\`, `\"`→`"`, `\l`→line break)
 is the original string. -/
 theorem unescape_escape (s : Bytes) : unescape (escape s) = s := Dot.unescape_escape s
+
+
+/-! ### the strings the emitter assembles
+
+`Model/DotEmit.lean` mirrors how dotgraph.go (with fixes/C18-dot-escape-all-sites.patch) builds
+each quoted string from escaped names, literal separators and formatted numbers.  External
+functions are parameters: `shorten` = ShortenFunctionName (arbitrary), `fmtv` = FormatValue
+(arbitrary: its result is escaped by `builder.formatValue`), `split` = strings.Split (arbitrary),
+`pct` = measurement.Percentage (assumed to print no quote/backslash), `base` = filepath.Base
+(assumed to keep escaped text safe: it cuts at `/`, which is never part of an escape unit). -/
+
+/-- **Node labels lex as one string** for every NodeInfo (function, file and object names of any
+bytes, any address/line/column), any values: `"` ++ label ++ `"` is read back as exactly the
+label — including the post-escape rewrites `::`→`\n`, `[...]`→`[…]`, `.`→`\n` of
+`multilinePrintableName`, which are shown not to cut an escape unit. -/
+theorem node_label_lexes (shorten base : Bytes → Bytes) (fmtv pct : Int → Bytes)
+    (hbase : ∀ s, qsafeB (base (escape s)) = true) (hpct : ∀ v, Plain (pct v))
+    (i : Info) (flat cum : Int) (r : Bytes) :
+    lexQuoted (DQ :: nodeLabel shorten base fmtv pct i flat cum ++ DQ :: r)
+      = some (nodeLabel shorten base fmtv pct i flat cum, r) := by
+  simp only [lexQuoted, if_true]
+  exact scanQ_of_qsafeB _ (nodeLabel_qsafe shorten base fmtv pct hbase hpct i flat cum) r
+
+-- non-vacuity of the hypotheses (base = identity, a percentage text) on a hostile NodeInfo
+example : (∀ s, qsafeB (id (escape s)) = true) ∧ (∀ v : Int, Plain ((fun _ => [0x31, 0x32, 0x2e, 0x35, 0x25]) v)) ∧
+    qsafeB (nodeLabel id id (fun _ => [0x31, DQ]) (fun _ => [0x35, 0x25])
+      ⟨[DQ, 0x2e, BS], [BS], [DQ], 4096, 7, 0⟩ 3 5) = true :=
+  ⟨qsafeB_escape, fun _ => by show Plain [0x31, 0x32, 0x2e, 0x35, 0x25]; unfold Plain; decide, by decide +kernel⟩
+
+/-- **Tooltips lex as one string**: node tooltip `name (value)` and edge tooltip `src -> dst (w)`. -/
+theorem tooltips_lex (base : Bytes → Bytes) (fmtv : Int → Bytes) (i j : Info) (flat cum w : Int)
+    (residual : Bool) (r : Bytes) :
+    lexQuoted (DQ :: nodeTooltip base fmtv i flat cum ++ DQ :: r) = some (nodeTooltip base fmtv i flat cum, r) ∧
+    lexQuoted (DQ :: edgeTooltip base fmtv i j w residual ++ DQ :: r) = some (edgeTooltip base fmtv i j w residual, r) := by
+  simp only [lexQuoted]
+  exact ⟨scanQ_of_qsafeB _ (nodeTooltip_qsafe base fmtv i flat cum) r,
+         scanQ_of_qsafeB _ (edgeTooltip_qsafe base fmtv i j w residual) r⟩
+
+/-- **Tag nodelet labels and the legend lex as one string**: tag names are split at graph.joinLabels'
+`\n` separators, every piece escaped, and re-joined; legend lines are escaped and joined with `\l`. -/
+theorem tag_and_legend_labels_lex (split : Bytes → List Bytes) (name : Bytes) (labels : List Bytes) (r : Bytes) :
+    lexQuoted (DQ :: tagLabel split name ++ DQ :: r) = some (tagLabel split name, r) ∧
+    lexQuoted (DQ :: legendLabel labels ++ DQ :: r) = some (legendLabel labels, r) := by
+  simp only [lexQuoted]
+  exact ⟨scanQ_of_qsafeB _ (tagLabel_qsafe split name) r, scanQ_of_qsafeB _ (legendLabel_qsafe labels) r⟩
+
+example : tagLabel (fun s => [s.take 2, s.drop 4]) [DQ, BS, BS, 0x6e, DQ] = [BS, DQ, BS, BS, BS, 0x6e, BS, DQ] := by decide
 
 /-- What makes a regenerated splice site acceptable: literals, numbers and escaped values
 anywhere; outside quotes nothing else, except the caller-chosen node shape; inside quotes the
